@@ -94,6 +94,7 @@ impl World {
     /// `/bin/{true,false,pwd}` (so that the substitutive built-ins are found),
     /// `/tmp`, `/work` (the initial working directory of pid 2).
     pub fn new(cfg: SimConfig, decider: Decider) -> World {
+        yash_env::system::r#virtual::sim_hook::reset_serials();
         let system = VirtualSystem::new();
         {
             let mut st = system.state.borrow_mut();
